@@ -312,6 +312,21 @@ def run_tlc(module, cfg, cwd, *, workers=None, timeout=600, simulate=None, depth
     return r
 
 
+def run_apalache(module, init, inv, length, timeout=300):
+    """apalache-mc check --init --inv --length on spec/<module>.tla in a scratch dir. Returns (ok, wall_s, tail)."""
+    d = workdir("apalache")
+    shutil.copy(os.path.join(SPEC, module + ".tla"), d)
+    t0 = time.time()
+    try:
+        p = subprocess.run(["apalache-mc", "check", "--init=" + init, "--inv=" + inv, "--length=%d" % length, module + ".tla"],
+                           cwd=d, capture_output=True, text=True, timeout=timeout)
+        out = p.stdout + p.stderr
+        ok = p.returncode == 0 and "EXITCODE: OK" in out
+    except (subprocess.TimeoutExpired, OSError) as e:
+        out, ok = str(e), False
+    return ok, round(time.time() - t0, 1), out[-400:]
+
+
 def sany_all():
     d = workdir("sany")
     for f in os.listdir(SPEC):
